@@ -759,6 +759,27 @@ def run(ctx):
     check_unit_tests(ctx, h, rng, ctx.pick(25, 400))
     if ctx.shard % 4 == 1:
         check_output_history(ctx)
+    if ctx.shard % 4 in (2, 3):
+        # the instructor cleared the sandbox's history of executions (clear_context / clear_sandbox keep the numbering going):
+        # results obtained before AND after that are operands like any other
+        h2 = Harness()
+        before = [h2.operand(e) for e in ('3', "'abc'", '[1, 2, 3]')]
+        h2.sbx.get_sandbox().clear_context()
+        ctx.count('harnesses_with_cleared_execution_history')
+        # output assertions about an execution whose record is gone cannot be evaluated: they fail, they do not raise
+        for name in ('assert_output', 'assert_not_output', 'assert_output_contains', 'assert_not_output_contains'):
+            o = h2.outcome(name, before[0][1], 'anything')
+            ctx.count('cells_checked')
+            ctx.case('%s|cleared-record' % name)
+            if o != 'fails':
+                ctx.violation('C07|%s|expected-fails|got-%s|the-record-of-the-execution-was-cleared' % (name, o.split(':')[0]),
+                              {'assertion': name, 'scenario': 'cleared-record'}, o)
+        sample = cells[ctx.shard::ctx.nshards]
+        rng.shuffle(sample)
+        for name, a, b in sample[:ctx.pick(120, 2000)]:
+            if ctx.time_left() < 5:
+                break
+            check_cell(ctx, h2, name, a, b)
 
 
 def replay(ctx, case):
